@@ -132,9 +132,10 @@ def index():
         "# Independently seeded changes and the checks that report them\n\nEach directory holds patch.diff (the change), demo/ (a test or program that fails with the change and passes without), notes.md (the author's description) and meta.json (what was re-verified here and which checks report the change). Generated by tools/seeded.py.\n\n| change | breaks | files | reported by (property: rules) |\n|---|---|---|---|\n" + "\n".join(rows) + "\n")
     print(len(rows), "entries")
 
-def recheck():
+def recheck(only=None):
     for m in sorted(glob.glob(os.path.join(VERIF, "seeded", "*", "meta.json"))):
         d = json.load(open(m)); dst = os.path.dirname(m)
+        if only and only not in d["name"]: continue
         wt = scratch_wt()
         try:
             rc, out = sh(["git", "apply", os.path.join(dst, "patch.diff")], wt)
@@ -154,4 +155,4 @@ if __name__ == "__main__":
     use_private_cache()
     if sys.argv[1] == "ingest": ingest(sys.argv[2], sys.argv[3], sys.argv[4], sys.argv[5] if len(sys.argv) > 5 else 0)
     elif sys.argv[1] == "index": index()
-    elif sys.argv[1] == "recheck": recheck()
+    elif sys.argv[1] == "recheck": recheck(sys.argv[2] if len(sys.argv) > 2 else None)
